@@ -768,6 +768,21 @@ def check_C14(ctx):
         if c <= 10 and n <= 200:
             exp = 'out=%s slack=ok inputs=ok' % hx(_pbkdf2_ref(orc, pw, s, c, n))
             if o != exp: ctx.fail('pbkdf2-rfc8018', [l], o, exp, 'differs from RFC 8018 PBKDF2 computed over the implementation\'s own hash')
+    # block numbers beyond 16 bits: an output of more than 65536 blocks (the last k bytes and a checksum of the whole output are compared;
+    # the tail is also recomputed from RFC 8018 over the implementation's own hash)
+    ll = []
+    for (nblk, extra) in ([(65537, 7)] if ctx.tier == 'quick' else [(65537, 7), (65536, 0), (70000, 31)]):
+        pw, s_ = g.bytes(g.choice([3, 8]), 'rand'), g.bytes(4, 'rand'); n = nblk * 32 + extra
+        ll.append(('pbkdf2.tail %d %s %s 1 96' % (n, hx(pw), hx(s_)), n, pw, s_))
+    li, lm = ctx.corr('pbkdf2-long', [x[0] for x in ll], ('prod',), nontrivial=lambda i: True)
+    ctx.equality_streams['pbkdf2-long'] = 'TJ.Props.C14.pbkdf2_rfc8018'
+    for (l, n, pw, s_), o in zip(ll, li):
+        first = (n - 96) // 32 + 1; last = (n + 31) // 32
+        hm = lambda k_, m_: _rfc_hmac(orc.hash, k_, m_)
+        blocks = b''.join(hm(pw, s_ + i_.to_bytes(4, 'big')) for i_ in range(first, last + 1))
+        want = blocks[(n - 96) - (first - 1) * 32:][:96]
+        if field(o, 'tail') != hx(want) or 'slack=ok' not in o:
+            ctx.fail('pbkdf2-long-output', [l], o, 'tail=' + hx(want), 'the last 96 bytes of a %d-byte output (blocks %d..%d) differ from RFC 8018 T_i = PRF(P, S || INT32BE(i)) computed over the implementation\'s own hash' % (n, first, last))
     # prefix property and count 0 == count 1, on the implementation
     pl = []
     for _ in range(20):
